@@ -324,8 +324,11 @@ __CPROVER_ensures(__CPROVER_return_value == self->value_.count);
 #ifndef NITRO_K
 #define NITRO_K 2          /* declarations per kind (bound, DESIGN.md 4.1); the arrays hold them in key order */
 #endif
+#ifndef NITRO_EXTRA_MEMBERS_oparser
+#define NITRO_EXTRA_MEMBERS_oparser
+#endif
 struct oparser { struct ooption opts[NITRO_K]; size_t n_opts; struct omulti mopts[NITRO_K]; size_t n_mopts; struct otoggle toggles[NITRO_K]; size_t n_toggles;
-                 size_t allowed_positionals_; nbool greedy_positionals_; };
+                 size_t allowed_positionals_; nbool greedy_positionals_;  NITRO_EXTRA_MEMBERS_oparser };
 /* std::set<std::string> of one-character short names: membership per table letter */
 struct oletters { nbool has[NITRO_NL]; };
 static inline void oletters_init(struct oletters *s) { s->has[0] = 0; s->has[1] = 0; s->has[2] = 0; s->has[3] = 0; }
